@@ -682,6 +682,236 @@ example :
         .copyLevels { vdr_dm_data := some { cmv29 := some { num_ext_blocks := 1, blocks := [{ level := 6, length := 8, vals := [1000, 1, 0, 0] }] } } } [6]]).isOk = true := by
   decide
 
+/-! ## sortedness as an invariant over operation sequences -/
+
+/-- every present container is sorted by `(level, target)` -/
+def SortedDm (d : DmData) : Prop := ∀ w c, d.get w = some c → Sorted c.blocks
+
+theorem sorted_set (d : DmData) (w : Which) (c : Container) (hd : SortedDm d) (hc : Sorted c.blocks) :
+    SortedDm (d.set w c) := by
+  intro w' c' hg
+  by_cases hw : w' = w
+  · subst hw
+    rw [get_set_same] at hg
+    injection hg with hg
+    subst hg
+    exact hc
+  · rw [get_set_other d w w' c hw] at hg
+    exact hd w' c' hg
+
+theorem addBlock_sortedDm (d d' : DmData) (b : Block) (hd : SortedDm d) (h : d.addBlock b = .ok d') : SortedDm d' := by
+  unfold DmData.addBlock at h
+  split at h
+  · injection h with h; subst h; exact hd
+  · rename_i w hw
+    split at h
+    · injection h with h; subst h; exact hd
+    · rename_i c hc
+      cases ha : c.addBlock (allowedOf w) b with
+      | error => simp [ha, Res.bind] at h
+      | panic => simp [ha, Res.bind] at h
+      | ok c' =>
+        simp only [ha, Res.bind] at h
+        injection h with h
+        subst h
+        exact sorted_set d w c' hd (addBlock_sorted _ c c' b ha).1
+
+theorem removeLevel_sortedDm (d : DmData) (level : Nat) (hd : SortedDm d) : SortedDm (d.removeLevel level) := by
+  unfold DmData.removeLevel
+  split
+  · exact hd
+  · split
+    · exact hd
+    · rename_i c _
+      exact sorted_set d _ _ hd (removeLevel_sorted c level).1
+
+theorem replaceBlock_sortedDm (d d' : DmData) (b : Block) (hd : SortedDm d) (h : d.replaceBlock b = .ok d') :
+    SortedDm d' := by
+  unfold DmData.replaceBlock at h
+  split at h
+  · split at h
+    · cases h
+    · split at h
+      · cases h
+      · rename_i c _
+        injection h with h
+        subst h
+        exact sorted_set d _ _ hd (replaceKeyed_upsert c b).1
+  · split at h
+    · cases h
+    · unfold DmData.replaceLevel at h
+      exact addBlock_sortedDm _ d' b (removeLevel_sortedDm d b.level hd) h
+
+theorem replaceBlocks_sortedDm (bs : List Block) :
+    ∀ (d d' : DmData), SortedDm d → d.replaceBlocks bs = .ok d' → SortedDm d' := by
+  induction bs with
+  | nil => intro d d' hd h; simp only [DmData.replaceBlocks] at h; injection h with h; subst h; exact hd
+  | cons b bs ih =>
+    intro d d' hd h
+    simp only [DmData.replaceBlocks] at h
+    cases hb : d.replaceBlock b with
+    | error => simp [hb, Res.bind] at h
+    | panic => simp [hb, Res.bind] at h
+    | ok d1 =>
+      simp only [hb, Res.bind] at h
+      exact ih d1 d' (replaceBlock_sortedDm d d1 b hd hb) h
+
+theorem applyOp_sortedDm (d d' : DmData) (op : BlockOp) (hd : SortedDm d) (h : applyOp d op = .ok d') :
+    SortedDm d' := by
+  cases op with
+  | add b => exact addBlock_sortedDm d d' b hd h
+  | replace b => exact replaceBlock_sortedDm d d' b hd h
+  | replaceLevel b =>
+    simp only [applyOp, DmData.replaceLevel] at h
+    exact addBlock_sortedDm _ d' b (removeLevel_sortedDm d b.level hd) h
+  | removeLevel l =>
+    simp only [applyOp] at h
+    injection h with h
+    subst h
+    exact removeLevel_sortedDm d l hd
+  | replaceMany bs => exact replaceBlocks_sortedDm bs d d' hd h
+
+/-- **sortedness over every operation sequence** (DM level): starting from a payload whose containers are sorted
+(every generated RPU; every parsed RPU whose blocks were stored in order — and any payload after its containers have
+been touched once, by `*_touched_sorted`), every successful sequence of add / replace / replace-level /
+remove-level / replace-many leaves every container sorted by `(level, target)` -/
+theorem ops_preserve_sorted (ops : List BlockOp) :
+    ∀ (d d' : DmData), SortedDm d → applyOps d ops = .ok d' → SortedDm d' := by
+  induction ops with
+  | nil => intro d d' hd h; simp only [applyOps] at h; injection h with h; subst h; exact hd
+  | cons op ops ih =>
+    intro d d' hd h
+    simp only [applyOps] at h
+    cases ho : applyOp d op with
+    | error => simp [ho, Res.bind] at h
+    | panic => simp [ho, Res.bind] at h
+    | ok d1 =>
+      simp only [ho, Res.bind] at h
+      exact ih d1 d' (applyOp_sortedDm d d1 op hd ho) h
+
+def RpuSorted (r : Rpu) : Prop := ∀ d, r.vdr_dm_data = some d → SortedDm d
+
+theorem replaceLevelsFrom_go_sorted (sd : DmData) (lv : List Nat) :
+    ∀ (d d' : DmData), SortedDm d → Rpu.replaceLevelsFrom.go sd d lv = .ok d' → SortedDm d' := by
+  induction lv with
+  | nil => intro d d' hd h; simp only [Rpu.replaceLevelsFrom.go] at h; injection h with h; subst h; exact hd
+  | cons l ls ih =>
+    intro d d' hd h
+    simp only [Rpu.replaceLevelsFrom.go] at h
+    cases hb : d.replaceBlocks (sd.levelBlocks l) with
+    | error => simp [hb, Res.bind] at h
+    | panic => simp [hb, Res.bind] at h
+    | ok d1 =>
+      simp only [hb, Res.bind] at h
+      exact ih d1 d' (replaceBlocks_sortedDm _ d d1 hd hb) h
+
+theorem applyRpuOp_sorted (r r' : Rpu) (op : RpuOp) (hr : RpuSorted r) (h : applyRpuOp r op = .ok r') :
+    RpuSorted r' := by
+  have hl5 : ∀ (rr : Rpu) (blk : Block), RpuSorted rr →
+      (match rr.vdr_dm_data with
+       | none => Res.ok rr
+       | some d => (d.replaceBlock blk).bind fun d' => .ok { rr with vdr_dm_data := some d' }) = .ok r' →
+      RpuSorted r' := by
+    intro rr blk hrr hh
+    cases hd : rr.vdr_dm_data with
+    | none => rw [hd] at hh; injection hh with hh; subst hh; exact hrr
+    | some d =>
+      rw [hd] at hh
+      cases hb : d.replaceBlock blk with
+      | error => simp [hb, Res.bind] at hh
+      | panic => simp [hb, Res.bind] at hh
+      | ok d1 =>
+        simp only [hb, Res.bind] at hh
+        injection hh with hh
+        subst hh
+        intro d2 hd2
+        injection hd2 with hd2
+        subst hd2
+        exact replaceBlock_sortedDm d d1 blk (hrr d hd) hb
+  cases op with
+  | dm op =>
+    simp only [applyRpuOp] at h
+    cases hd : r.vdr_dm_data with
+    | none => rw [hd] at h; injection h with h; subst h; exact hr
+    | some d =>
+      rw [hd] at h
+      cases ho : applyOp d op with
+      | error => simp [ho, Res.bind] at h
+      | panic => simp [ho, Res.bind] at h
+      | ok d1 =>
+        simp only [ho, Res.bind] at h
+        injection h with h
+        subst h
+        intro d2 hd2
+        injection hd2 with hd2
+        subst hd2
+        exact applyOp_sortedDm d d1 op (hr d hd) ho
+  | crop =>
+    simp only [applyRpuOp, Rpu.crop] at h
+    exact hl5 { r with modified := true } _ (fun d hd => hr d hd) h
+  | setOffsets l rr t b =>
+    simp only [applyRpuOp, Rpu.setActiveAreaOffsets] at h
+    exact hl5 { r with modified := true } _ (fun d hd => hr d hd) h
+  | removeCmv40 =>
+    simp only [applyRpuOp] at h
+    injection h with h
+    subst h
+    unfold Rpu.removeCmv40
+    cases hd : r.vdr_dm_data with
+    | none => simpa [hd] using hr
+    | some d =>
+      simp only []
+      split
+      · intro d2 hd2
+        injection hd2 with hd2
+        subst hd2
+        intro w c hg
+        cases w with
+        | v29 => exact hr d hd .v29 c hg
+        | v40 => cases hg
+      · exact hr
+  | copyLevels src lv =>
+    simp only [applyRpuOp, Rpu.replaceLevelsFrom] at h
+    split at h
+    · cases h
+    · split at h
+      · rename_i d sd hd hsd
+        cases hg : Rpu.replaceLevelsFrom.go sd d lv with
+        | error => simp [hg, Res.bind] at h
+        | panic => simp [hg, Res.bind] at h
+        | ok d1 =>
+          simp only [hg, Res.bind] at h
+          injection h with h
+          subst h
+          intro d2 hd2
+          injection hd2 with hd2
+          subst hd2
+          exact replaceLevelsFrom_go_sorted sd lv d d1 (hr d hd) hg
+      · injection h with h; subst h; exact hr
+
+/-- **sortedness over the whole public surface**: block operations, crop, set-offsets, remove-CM-v4.0 and
+copy-levels, in any successful sequence, keep every container of the RPU sorted -/
+theorem rpu_ops_preserve_sorted (ops : List RpuOp) :
+    ∀ (r r' : Rpu), RpuSorted r → applyRpuOps r ops = .ok r' → RpuSorted r' := by
+  induction ops with
+  | nil => intro r r' hr h; simp only [applyRpuOps] at h; injection h with h; subst h; exact hr
+  | cons op ops ih =>
+    intro r r' hr h
+    simp only [applyRpuOps] at h
+    cases ho : applyRpuOp r op with
+    | error => simp [ho, Res.bind] at h
+    | panic => simp [ho, Res.bind] at h
+    | ok r1 =>
+      simp only [ho, Res.bind] at h
+      exact ih r1 r' (applyRpuOp_sorted r r1 op hr ho) h
+
+/-- non-vacuity: the generator-style payload is sorted -/
+example : SortedDm { cmv29 := some { num_ext_blocks := 2, blocks := [{ level := 1, length := 5, vals := [0, 1, 2] },
+                                                                     { level := 5, length := 7, vals := [0, 0, 0, 0] }] },
+                     cmv40 := some { num_ext_blocks := 1, blocks := [{ level := 254, length := 2, vals := [0, 2] }] } } := by
+  intro w c h
+  cases w <;> (injection h with h; subst h; unfold Sorted; decide)
+
 /-- **source tie** (Gen/SourceRules.lean is regenerated from /repo on every run by tools/gen_source_rules.py): the
 `sort_key()` of every block level as it stands in the source now — `(level, 0)` by default, `(level, field)` for the
 levels that override it — is the model's `Block.sortKey`, on which every ordering theorem above is built -/
